@@ -27,9 +27,4 @@ theorem final32_eq (v : V) : barrett p32 (reduce128 p32 v) = ((stepN P32' 128 v)
     (Lin.comp (Lin.comp (lin_stepN P32' 128) (lin_setWidth 32)) (lin_setWidth 64)) ?_ v
   rw [p32_eq]; decide +kernel
 
-/-- folding by 128 bits: `fold(v, fold128) ≡ v·x^128`. -/
-theorem fold128_32_eq (v : V) : stepN P32' 128 (fold v p32.fold128) = stepN P32' 256 v := by
-  refine basisAll_sound (Lin.comp (lin_fold _) (lin_stepN P32' 128)) (lin_stepN P32' 256) ?_ v
-  rw [p32_eq]; decide +kernel
-
 end XzVerif.Clmul
